@@ -687,3 +687,43 @@ func wfRangeReq(o *ObjectRangeRequest) bool {
 //@ requires           v:      v != nil
 //@ ensures [C05]      def:    ret0 == (v.Status == VersioningEnabled)
 //@ modifies nothing
+
+// ---- C16: virtual-host addressing --------------------------------------------------
+// The middlewares rewrite rq.URL.Path and hand the request to the next handler
+// exactly once; what that handler was given is observed through the ghost log of
+// http.Handler.ServeHTTP (served_req, served_path, served_host).
+
+//@ pred specFirstLabel(h) = ite(contains(h, "."), substr(h, 0, indexof(h, ".")), h)
+//@ pred specHostPath(bucket, p) = "/" + bucket + ite(p == "/", "", p)
+
+//@ func (*GoFakeS3).hostBucketMiddleware$1
+//@ props C16 C09
+//@ theory strings
+//@ requires          inv:    g != nil && *g != nil && (*g).log != nil && handler != nil && *handler != nil && rq != nil && rq.URL != nil
+//@ ensures [C16]     once:   served_count == old(served_count) + 1 && served_req == rq && served_host == old(rq.Host)
+//@ ensures [C16]     path:   served_path == specHostPath(specFirstLabel(old(rq.Host)), old(rq.URL.Path))
+
+//@ func (*GoFakeS3).hostBucketBaseMiddleware$1
+//@ props C16 C09
+//@ theory strings
+//@ requires          inv:    bases != nil
+//@ loop 1 invariant  none:   all(i, 0, rangeindex + 1, !(suffixof((*bases)[i], host) && !contains(substr(host, 0, len(host) - len((*bases)[i])), ".")))
+//@ ensures [C16]     sound:  imp(ok, ex(i, 0, len(*bases), host == bucket + (*bases)[i]) && !contains(bucket, "."))
+//@ ensures [C16]     compl:  imp(ex(i, 0, len(*bases), suffixof((*bases)[i], host) && !contains(substr(host, 0, len(host) - len((*bases)[i])), ".")), ok)
+//@ ensures [C16]     miss:   imp(!ok, bucket == "")
+//@ modifies nothing
+
+//@ funcfield hostBucketBaseMiddleware.matchBucket
+//@ pure
+
+//@ func (*GoFakeS3).hostBucketBaseMiddleware$2
+//@ props C16 C09
+//@ theory strings
+//@ requires          inv:    g != nil && *g != nil && (*g).log != nil && handler != nil && *handler != nil && rq != nil && rq.URL != nil && matchBucket != nil
+//@ ensures [C16]     once:   served_count == old(served_count) + 1 && served_req == rq && served_host == old(rq.Host)
+//@ ensures [C16]     path:   served_path == ite(pureres("hostBucketBaseMiddleware.matchBucket", 1, old(rq.Host)),
+//@                             specHostPath(pureres("hostBucketBaseMiddleware.matchBucket", 0, old(rq.Host)), old(rq.URL.Path)), old(rq.URL.Path))
+
+//@ func (*GoFakeS3).Server
+//@ props C16 C09
+//@ requires          inv:    g != nil
